@@ -317,6 +317,7 @@ func c12r2(c *RC) {
 
 func c12r3(c *RC) {
 	pr := c.P
+	sliceCapabilityAsserts(c, "*exec.Result", "a reused Result under Prefixed is not recognised and compile walks into it as if it were an operator")
 	fn := c.MustFn("exec.(*compiler).compile")
 	if fn == nil {
 		return
